@@ -261,6 +261,20 @@ def _edge_attrs(lib, vfs, part, parent, child, ctx, enum_all, edge, rb):
             if not effect:
                 part.add("settings_without_effect")
             judge(part, r, name, "%s in %s with %s" % (name, edge, setting), {"xml": xml, "edge": edge, "setting": setting})
+            if ctx == "default" and parent == "default" and c["default"] is not None and len(setting[0]) == 1:
+                # the instance overrides the class value back to the schema (global) default: the writer must not drop it
+                dv = c["default"]
+                dv = " ".join("%.17g" % x for x in dv) if isinstance(dv, tuple) else ("%.17g" % dv if isinstance(dv, float) else str(dv))
+                d2 = build_doc(parent, child, ctx, setting)
+                inst = [n for n in d2.nodes() if n.get("class") == "c2"]
+                if inst:
+                    inst[-1].set(c["attr"], dv)
+                    xml2 = d2.xml()
+                    r2 = roundtrip(lib, xml2, vfs)
+                    if r2.stage != "load":
+                        part.count(1, key=(parent, child, ctx, c["attr"], "override-with-global-default"))
+                        judge(part, r2, name + " overridden by its global default on the instance",
+                              "%s: class value %s, instance sets the global default %s" % (name, setting, dv), {"xml": xml2, "edge": edge})
             if not (c["enum"] and enum_all):
                 break
         if nload == 0:
@@ -316,8 +330,10 @@ def with_keyframes(lib, xml, vfs):
         qs = A.qpos_lattice(m, limit=4)
         q = qs[min(1, len(qs) - 1)]
         fmt = lambda v: " ".join("%.17g" % x for x in v)
-        keys = '  <keyframe>\n    <key name="home" time="0.5" qpos="%s" qvel="%s"/>\n    <key qpos="%s"/>\n  </keyframe>\n' % (
-            fmt(q), fmt(0.1 * np.arange(1, m.nv + 1)), fmt(qs[0]))
+        elast = np.zeros(max(m.nv, 1))
+        elast[-1] = 0.3
+        keys = ('  <keyframe>\n    <key name="home" time="0.5" qpos="%s" qvel="%s"/>\n    <key qpos="%s"/>\n'
+                '    <key name="lastdof" qvel="%s"/>\n  </keyframe>\n' % (fmt(q), fmt(0.1 * np.arange(1, m.nv + 1)), fmt(qs[0]), fmt(elast[:m.nv])))
         if m.nq == 0:
             keys = '  <keyframe>\n    <key name="home" time="0.5"/>\n  </keyframe>\n'
     finally:
@@ -357,7 +373,7 @@ def run_alphabet(lib, vfs, part, tag, xml, idx):
         v2 = G.make_vfs(lib, {"model.xml": xml})
         try:
             m = R.load_file(lib, "model.xml", v2)
-            path = os.path.join(R.tmpdir(), "last.xml")
+            path = os.path.join(R.tmpdir(), "last_%d.xml" % os.getpid())
             t = R.save_last(lib, m, path)
             m2 = lib.load_xml(t, vfs)
             bad, noise = R.compare(lib, m, m2, TOL64)
@@ -604,6 +620,7 @@ def _label(it):
 def run(ctx):
     lib = mj.load()
     R._offsets(lib)
+    R.tmpdir()
     _OPTS["enum_all"] = True
     _OPTS["size_cap"] = ctx.q(40_000, 50_000_000)
     items = schema_items()
